@@ -86,7 +86,16 @@ func runC19(r *mon.Run) {
 			}
 		}(s, names[si])
 	}
-	wg.Wait()
+	// generous watchdog: a family that never returns must not hang the check (its helper calls are themselves bounded
+	// where a seeded change is known to loop; a family-level expiry is inconclusive, not a violation)
+	allDone := make(chan struct{})
+	go func() { wg.Wait(); close(allDone) }()
+	select {
+	case <-allDone:
+	case <-time.After(time.Duration(r.Pick(20, 120)) * time.Minute):
+		r.Inconclusive("a family of C19 did not finish within the watchdog period")
+		return
+	}
 	if x.lg != nil {
 		x.lg.w.Flush()
 		x.lg.f.Close()
@@ -106,6 +115,35 @@ func runC19(r *mon.Run) {
 		f := f
 		min := int64(50)
 		r.Floor("evaluations of "+f, min, func() int64 { return r.Get("evaluations_" + f) })
+	}
+}
+
+// bounded runs f (a few microseconds of arithmetic) in its own goroutine and reports whether it returned. The verdict is
+// not a bare deadline: after 20 s without a return the caller's goroutine performs a fixed reference workload (2000
+// modular exponentiations of 2048 bits) - if the machine is so loaded that this takes long, the wait is extended by as much -
+// and only a call that has still not returned afterwards counts as non-terminating. The abandoned goroutine keeps spinning
+// until the process exits.
+func (x *c19) bounded(fn string, f func()) bool {
+	done := make(chan struct{})
+	go func() {
+		defer func() { recover(); close(done) }()
+		f()
+	}()
+	select {
+	case <-done:
+		return true
+	case <-time.After(20 * time.Second):
+	}
+	b, e, m := pow2(2047), pow2(2040), sub(pow2(2048), bi(159))
+	for i := 0; i < 2000; i++ {
+		b.Exp(b, e, m)
+	}
+	select {
+	case <-done:
+		return true
+	case <-time.After(20 * time.Second):
+		x.r.Add("helper_calls_abandoned", 1)
+		return false
 	}
 }
 
@@ -538,6 +576,59 @@ func (x *c19) fastMod() {
 		}
 		if x.lg != nil && i%30 == 0 {
 			x.lg.log(map[string]any{"fn": "FastMod", "x": v.String(), "p": p.String(), "out": ret.String()})
+		}
+	}
+	// one FastMod value re-Set through a history of moduli (fast and slow path, equal and different bit lengths):
+	// every Set must leave it exactly as a fresh value Set to the same modulus
+	var hist verifhooks.FastMod
+	var prevBits uint
+	histDesc := []string{}
+	for i := 0; i < r.Pick(4000, 60000); i++ {
+		var bits uint
+		switch rng.IntN(3) {
+		case 0:
+			bits = uint(61 + rng.IntN(8))
+		case 1:
+			bits = uint(61 + rng.IntN(300))
+		default:
+			bits = uint(8 + rng.IntN(2048))
+		}
+		if prevBits > 0 && rng.IntN(2) == 0 {
+			bits = prevBits // same bit length as the modulus before
+		}
+		var c *big.Int
+		if rng.IntN(2) == 0 {
+			c = randBig(rng, 1+rng.IntN(40)) // fast path
+		} else {
+			c = add(pow2(59+uint(rng.IntN(2))), randBig(rng, 30)) // slow path (c >= 2^59), still below 2^(bits-1) for bits >= 62
+		}
+		p := sub(pow2(bits), add(c, bigOne))
+		if p.Sign() <= 0 || uint(p.BitLen()) != bits {
+			continue
+		}
+		if !x.bounded("FastMod", func() {
+			hist.Set(p)
+			var warm big.Int
+			hist.Mod(&warm, add(pow2(3*bits), bi(12345)))
+		}) {
+			x.fail("FastMod", fmt.Sprintf("Mod does not return after the value was Set again (last moduli bits:c-bits %v, then %d:%d)", histDesc, bits, c.BitLen()), map[string]any{"p": dumpInt(p), "set_history": histDesc, "x": "2^(3*bits)+12345"})
+			return
+		}
+		prevBits = bits
+		histDesc = append(histDesc, fmt.Sprintf("%d:%d", bits, c.BitLen()))
+		if len(histDesc) > 6 {
+			histDesc = histDesc[1:]
+		}
+		for k := 0; k < 3; k++ {
+			v := randBig(rng, int(bits)+1+rng.IntN(2*int(bits)))
+			want := new(big.Int).Mod(v, p)
+			var ret big.Int
+			hist.Mod(&ret, v)
+			n++
+			if ret.Cmp(want) != 0 {
+				x.fail("FastMod", fmt.Sprintf("wrong after the value was Set again (last moduli bits:c-bits %v)", histDesc), map[string]any{"x": dumpInt(v), "p": dumpInt(p), "set_history": histDesc})
+				return
+			}
 		}
 	}
 	x.count("FastMod", n/10000+1)
